@@ -13,7 +13,7 @@ func (t *ATable) InvokeRenderCallbacks() {
 	ec := t.ErrorContainer
 	invokePropertyCallbacks(t.tableItselfCallbacks, CB_AT_RENDER_PRECELL, t, ec)
 	for i := range t.columns {
-		col := &t.columns[i]
+		col := t.columns[i]
 		invokePropertyCallbacks(col.columnItselfCallbacks, CB_AT_RENDER_PRECELL, col, ec)
 	}
 	if t.headerRow != nil {
@@ -23,7 +23,7 @@ func (t *ATable) InvokeRenderCallbacks() {
 		row.invokeRenderCallbacks(t, ec)
 	}
 	for i := range t.columns {
-		col := &t.columns[i]
+		col := t.columns[i]
 		invokePropertyCallbacks(col.columnItselfCallbacks, CB_AT_RENDER_POSTCELL, col, ec)
 	}
 	invokePropertyCallbacks(t.tableItselfCallbacks, CB_AT_RENDER_POSTCELL, t, ec)
